@@ -66,13 +66,18 @@ def resHandle : Res → Option Handle
 
 /-! ## maildir.c -/
 
-/-- `maildir_genname`: the descriptor of the newly created file and its name. `fuel` bounds the
-retries on EEXIST (C07: the loop ends because only finitely many names exist). -/
+/-- `count` is an `unsigned int` in `maildir_genname`: `count++` wraps at `2 ^ 32`, `%u` prints the wrapped value. -/
+def gennameWrap : Nat := 2 ^ Gen.gennameCountBits
+
+/-- `maildir_genname`: the descriptor of the newly created file and its name.  The C loop is `for (;;)`: it
+ends with a name that does not fit (ENAMETOOLONG), with an error other than EEXIST, or with success - there
+is no retry bound.  `fuel` bounds the retries on EEXIST in the model; `count` is the number of increments
+so far, the counter of the C code is `count % gennameWrap` (what `%u` prints). -/
 def genname (env : PEnv) (md : Maildir) (flags : Option Bytes) : Nat → Nat → Prog (Option (Handle × Bytes))
   | 0, _ => pure none
   | fuel + 1, count =>
     let count := count + 1
-    let name := decimalInt env.now ++ [46] ++ decimal env.pid ++ [95] ++ decimal count ++ [46] ++ env.host ++ flags.getD []
+    let name := decimalInt env.now ++ [46] ++ decimal env.pid ++ [95] ++ decimal (count % gennameWrap) ++ [46] ++ env.host ++ flags.getD []
     if name.length ≥ NAME_MAX1 then pure none
     else
       match md.dirH with
@@ -84,8 +89,14 @@ def genname (env : PEnv) (md : Maildir) (flags : Option Bytes) : Nat → Nat →
         | .err e => if e == "EEXIST" then genname env md flags fuel count else pure none
         | _ => pure none
 
+/-- The number of attempts the model makes: the bound of the C loop if it has one (`Gen.gennameLoopBound`,
+regenerated from maildir.c; `none` = `for (;;)`), else one full cycle of the 32-bit counter - after
+`gennameWrap` consecutive EEXIST answers every name the loop can ever produce has been tried once, and the
+C code goes on trying the same names again (it never gives up by itself). -/
+def gennameAttempts : Nat := Gen.gennameLoopBound.getD gennameWrap
+
 def gennameStart (env : PEnv) (md : Maildir) (flags : Option Bytes) : Prog (Option (Handle × Bytes)) :=
-  genname env md flags 4096 (env.random % Gen.gennameModulus)
+  genname env md flags gennameAttempts (env.random % Gen.gennameModulus)
 
 /-- `maildir_opendir`. -/
 def maildirOpendir (md : Maildir) (path : Bytes) : Prog (Maildir × Bool) := do
